@@ -286,15 +286,69 @@ def replay(ctx, data, pid):
     return bool(vs), 'oracle: %r; lines: %r' % (vs[:3], [p[3] for p in F.puts])
 
 
+def _search_work(job):
+    import logging
+    logging.disable(logging.CRITICAL)
+    kind, pid, arg = job
+    found = []
+    if kind == 'dfs':
+        sc, bound, cap = arg
+
+        def run_one(prefix):
+            ch = dsched.BoundedChooser(prefix, bound)
+            r = datarun.run_scenario(sc, ch, eager=eager, probe=True)
+            if not found:
+                vs = datarun.ORACLES[pid](r, datarun.Facts(r))
+                if vs:
+                    found.append({'case': {'scenario': sc.describe(), 'schedule': [c for c, _ in r.taken], 'source': 'dfs'},
+                                  'detail': vs[0][0], 'key': vs[0][1], 'kind': 'schedule'})
+            return ch.taken
+        cap_box = [cap]
+
+        def run_capped(prefix):
+            if found:
+                raise StopIteration
+            return run_one(prefix)
+        try:
+            dsched.dfs_schedules(run_capped, max_runs=cap)
+        except StopIteration:
+            pass
+    else:
+        seed, n, single = arg
+        rng = random.Random(seed)
+        for i in range(n):
+            sc = gen_scenario(rng, max_items=1, max_len=8, free_threads=1) if single else gen_scenario(rng)
+            ch = dsched.PCTChooser(random.Random(rng.getrandbits(32)), depth=rng.choice([2, 3, 4, 6])) if i % 3 else dsched.RandomChooser(random.Random(rng.getrandbits(32)))
+            r = datarun.run_scenario(sc, ch, eager=('writer',) if i % 2 else eager)
+            vs = datarun.ORACLES[pid](r, datarun.Facts(r))
+            if vs:
+                found.append({'case': {'scenario': sc.describe(), 'schedule': [c for c, _ in r.taken], 'source': 'random'},
+                              'detail': vs[0][0], 'key': vs[0][1], 'kind': 'schedule'})
+                break
+    return found[0] if found else None
+
+
 def search(ctx, res, pid):
-    """failing-input search after a broken obligation / correspondence: more random schedules, oracle only"""
+    """failing-input search after a broken obligation / correspondence (oracle only): deeper bounded-exhaustive enumeration of
+    single-item histories of length 4..6 (preemption bound 3), long single-item histories and general scenarios under PCT / random
+    schedules; in parallel, first hit wins"""
+    import multiprocessing
+
+    def hist(k, item='a'):
+        return [('%s%d' % (item, i + 1), 'SUB' if i % 2 == 0 else 'USB', item) for i in range(k)]
     rng = random.Random(ctx.seed + 7)
-    for i in range(4000):
-        sc = gen_scenario(rng)
-        ch = dsched.PCTChooser(random.Random(rng.getrandbits(32)), depth=rng.choice([1, 2, 3])) if i % 2 else dsched.RandomChooser(random.Random(rng.getrandbits(32)))
-        r = datarun.run_scenario(sc, ch, eager=('writer',))
-        F = datarun.Facts(r)
-        vs = datarun.ORACLES[pid](r, F)
-        if vs:
-            return {'case': {'scenario': sc.describe(), 'schedule': [c for c, _ in r.taken], 'source': 'random'}, 'detail': vs[0][0], 'key': vs[0][1], 'kind': 'schedule'}
+    jobs = []
+    for k in (4, 5, 6):
+        for pool in (2, 3):
+            jobs.append(('dfs', pid, (Scenario(pool, [hist(k)], {'a': {'snap': [True, True, True], 'sub': ['ret', 'ret', 'ret']}}), 3, 12000)))
+            jobs.append(('dfs', pid, (Scenario(pool, [hist(k)[:2], hist(k)[2:]], {'a': {'snap': [False, True, False]}}, free=[[('upd', 'a')]]), 2, 6000)))
+    for _ in range(16):
+        jobs.append(('random', pid, (rng.getrandbits(40), 700, True)))
+        jobs.append(('random', pid, (rng.getrandbits(40), 500, False)))
+    nproc = min(12, multiprocessing.cpu_count())
+    with multiprocessing.get_context('fork').Pool(nproc) as pool:
+        for hit in pool.imap_unordered(_search_work, jobs, chunksize=1):
+            if hit:
+                pool.terminate()
+                return hit
     return None
